@@ -22,6 +22,9 @@ type profile struct {
 	scripts   []string
 	inputs    [][]int
 	fuel      int
+	noEv      bool // no trace events inside generators (goroutine-safe programs, C14 parallel)
+	plainFns  int  // number of plain (non-generator) functions per program (C13)
+	etaBait   bool // closures of the eta-reducible shape func(p) T { return f(p) }
 }
 
 func (p *profile) excl(k string) bool { return p.exclude[k] }
@@ -64,6 +67,7 @@ type gctx struct {
 	afterYield bool // a yield has been emitted earlier in the current straight-line path (approximation)
 	inClosure int
 	ret     string // result kind of the current function: gen | int | none
+	noShadowNext bool
 	swYield []bool // per enclosing switch: a yield has been emitted inside it so far
 	postYieldLoop []bool // per enclosing loop: the loop has a yielding post statement
 }
@@ -122,7 +126,7 @@ func (g *gctx) visible(pred func(vinfo) bool) []vinfo {
 
 func isIntLike(t string) bool {
 	switch t {
-	case "int", "rune", "byte", "string", "any", "int64", "uint8", "int32", "bool", "error", "tr.Pt", "MyInt", "uint", "int8", "uint16", "float64":
+	case "int", "rune", "byte", "string", "any", "int64", "uint8", "int32", "bool", "error", "tr.Pt", "tr.MyInt", "uint", "int8", "uint16", "float64":
 		return true
 	}
 	return false
@@ -219,6 +223,9 @@ func (g *gctx) cond1(ops []string) *Expr {
 // ---- statements ---------------------------------------------------------------------------------
 
 func (g *gctx) evStmt() *Stmt {
+	if g.prof.noEv {
+		return &Stmt{K: "rawsimple", Raw: "_ = 0"}
+	}
 	s := &Stmt{K: "ev", ID: g.ev()}
 	n := g.draw(3, "evargs")
 	for i := 0; i < n; i++ {
@@ -265,7 +272,7 @@ func (g *gctx) allowed(k string) bool {
 		if !g.inGen {
 			return false
 		}
-		if k == "yieldfrom" && len(g.gens) == 0 {
+		if k == "yieldfrom" && !g.hasDelegTarget() {
 			return false
 		}
 	case "break":
@@ -300,7 +307,7 @@ func (g *gctx) allowed(k string) bool {
 			return false
 		}
 	case "crange", "itdecl":
-		if len(g.gens) == 0 {
+		if !g.hasDelegTarget() {
 			return false
 		}
 	case "panic":
@@ -336,7 +343,7 @@ func (g *gctx) stmts(max int, loopBody bool) []*Stmt {
 func (g *gctx) newVarName(shadowOK bool) string {
 	// shadowing: reuse a visible int variable's name (not declared in the current block)
 	if shadowOK && g.pct(35, "shadow") {
-		vars := g.visible(func(v vinfo) bool { return isIntLike(v.typ) && !g.declaredInCurrent(v.name) })
+		vars := g.visible(func(v vinfo) bool { return isIntLike(v.typ) && !g.declaredInCurrent(v.name) && v.name != "res" })
 		if len(vars) > 0 {
 			g.prog.tag("shadow")
 			return vars[g.draw(len(vars), "shadowvar")].name
@@ -848,6 +855,22 @@ func (g *gctx) closureStmt() []*Stmt {
 	name := g.fresh("f")
 	arity := g.draw(2, "arity")
 	fl := &FuncLit{}
+	if g.prof.etaBait && g.pct(35, "eta") {
+		// eta-reducible shape over a local function variable that is re-assigned afterwards
+		cl := g.visible(func(v vinfo) bool { return v.typ == "closure/1" })
+		if len(cl) > 0 {
+			target := cl[g.draw(len(cl), "etatarget")].name
+			p := g.fresh("p")
+			fl.Params = []Param{{p, "int"}}
+			fl.Result = "int"
+			fl.Ret = &Expr{K: "call", Name: target, Args: []*Expr{{K: "var", Name: p}}}
+			g.prog.tag("eta-shape")
+			g.declare(vinfo{name: name, typ: "closure/1"})
+			k := g.fresh("q")
+			re := &Stmt{K: "closure-assign", Name: target, Fn: &FuncLit{Params: []Param{{k, "int"}}, Result: "int", Ret: &Expr{K: "bin", Op: "*", L: &Expr{K: "var", Name: k}, R: lit(2 + g.draw(5, "etamul"))}}}
+			return []*Stmt{{K: "closure", Name: name, Fn: fl}, re, {K: "ev", ID: g.ev(), Args: []*Expr{{K: "call", Name: name, Args: []*Expr{g.intExpr(1)}}}}}
+		}
+	}
 	// save function-level context
 	sv := *g
 	g.inGen, g.loops, g.sws, g.inner, g.swYield, g.postYieldLoop = false, 0, 0, nil, nil, nil
@@ -910,10 +933,26 @@ func (g *gctx) genLit() []*Stmt {
 	return out
 }
 
+// hasDelegTarget: some iterator of the current element type can be named (in consumers: any)
+func (g *gctx) hasDelegTarget() bool {
+	for _, gi := range g.gens {
+		if gi.elem == g.elem || !g.inGen {
+			return true
+		}
+	}
+	return len(g.visible(func(v vinfo) bool { return v.typ == "genfn/1/"+g.elem || v.typ == "iter/"+g.elem })) > 0
+}
+
 func (g *gctx) iterExpr() *IterExpr {
 	// local generator literal or iterator variable of the right element type, else an earlier generator
 	locals := g.visible(func(v vinfo) bool { return v.typ == "genfn/1/"+g.elem || v.typ == "iter/"+g.elem })
-	if len(locals) > 0 && g.pct(40, "localiter") {
+	anyGen := false
+	for _, gi := range g.gens {
+		if gi.elem == g.elem || !g.inGen {
+			anyGen = true
+		}
+	}
+	if len(locals) > 0 && (!anyGen || g.pct(40, "localiter")) {
 		v := locals[g.draw(len(locals), "li")]
 		if v.typ[:4] == "iter" {
 			g.prog.tag("yieldfrom-iterator-variable")
@@ -926,9 +965,6 @@ func (g *gctx) iterExpr() *IterExpr {
 		if gi.elem == g.elem || !g.inGen {
 			cands = append(cands, gi)
 		}
-	}
-	if len(cands) == 0 {
-		cands = g.gens
 	}
 	gi := cands[g.draw(len(cands), "gen")]
 	it := &IterExpr{K: "call", Name: gi.name, Elem: gi.elem}
@@ -975,7 +1011,12 @@ func (g *gctx) crangeStmt() *Stmt {
 	s := &Stmt{K: "crange", Iter: it, Op: ":="}
 	g.push(false)
 	defer g.pop()
-	s.Name = g.newVarName(true)
+	if g.noShadowNext {
+		g.noShadowNext = false
+		s.Name = g.fresh("v")
+	} else {
+		s.Name = g.newVarName(true)
+	}
 	g.declare(vinfo{name: s.Name, typ: it.Elem})
 	g.loops++
 	g.inner = append(g.inner, "loop")
@@ -1073,11 +1114,32 @@ func genProgram(t *rapid.T, prof *profile, name string) *Program {
 		p.Decls = append(p.Decls, d)
 		p.Entries = append(p.Entries, &Entry{Name: d.Name, Kind: "call", Call: "$P" + d.Name + "($0)", Inputs: allInputs(1, 0, 3), Fuel: prof.fuel})
 	}
+	for i := 0; i < prof.plainFns; i++ {
+		d := &Decl{Kind: "fn", Name: fmt.Sprintf("%sF%d", name, i), Result: "(res int)", Params: []Param{{"a", "int"}, {"b", "int"}}}
+		g.scope = nil
+		g.push(true)
+		g.declare(vinfo{name: "a", typ: "int"})
+		g.declare(vinfo{name: "b", typ: "int"})
+		g.declare(vinfo{name: "res", typ: "int"})
+		g.inGen, g.elem, g.ret = false, "", "none"
+		g.loops, g.sws, g.inner, g.depth = 0, 0, nil, 0
+		g.budget = prof.maxStmts
+		g.afterYield = false
+		d.Body = g.stmts(6, false)
+		if !terminating(d.Body) {
+			d.Body = append(d.Body, &Stmt{K: "assign", Name: "res", Op: "+=", E: g.intExpr(2)})
+		}
+		g.pop()
+		p.tag("plain-function")
+		p.Decls = append(p.Decls, d)
+		p.Entries = append(p.Entries, &Entry{Name: d.Name, Kind: "call", Call: "$P" + d.Name + "($0, $1)", Inputs: allInputs(2, 0, 2), Fuel: prof.fuel})
+	}
 	return p
 }
 
 // consumerLoop: for v := range G(..) { res += v ...; break/continue/return }
 func (g *gctx) consumerLoop() *Stmt {
+	g.noShadowNext = true
 	s := g.crangeStmt()
 	s.Body = append([]*Stmt{{K: "assign", Name: "res", Op: "+=", E: &Expr{K: "var", Name: s.Name, T: s.Iter.Elem}}}, s.Body...)
 	return s
